@@ -55,12 +55,25 @@ type bkState struct {
 	// takeover ordering: client id -> done channel of the live connection being taken over
 	tkMu      sync.Mutex
 	takeovers map[string]chan struct{}
+	// handlers parked at "attach.beforeCleanup" (bk.drophold ... bk.release): client object -> release channel
+	holds  map[*mqtt.Client]chan struct{}
+	parked chan *mqtt.Client
 }
 
 // yield is installed as mqtt.VerifYield: the new connection's handler waits after its CONNACK until
 // the handler of the connection it took over has finished (a fixed, sequential schedule; other
 // interleavings are explored by the concurrency suites).
 func (b *bkState) yield(point string, cl *mqtt.Client) {
+	if point == "attach.beforeCleanup" && cl != nil {
+		b.tkMu.Lock()
+		ch := b.holds[cl]
+		b.tkMu.Unlock()
+		if ch != nil {
+			b.parked <- cl
+			<-ch
+		}
+		return
+	}
 	if point != "attach.afterConnack" || cl == nil {
 		return
 	}
@@ -74,6 +87,15 @@ func (b *bkState) yield(point string, cl *mqtt.Client) {
 		case <-time.After(3 * time.Second):
 		}
 	}
+}
+
+func (b *bkState) releaseAll() {
+	b.tkMu.Lock()
+	for cl, ch := range b.holds {
+		close(ch)
+		delete(b.holds, cl)
+	}
+	b.tkMu.Unlock()
 }
 
 func (h *bkHook) ID() string { return "verif" }
@@ -440,6 +462,7 @@ func init() {
 	runners["bk.new"] = func(st *state, a []string) string {
 		runtime.GOMAXPROCS(1) // one goroutine at a time: handlers switch only where they block
 		if old := bkOf(st); old != nil {
+			old.releaseAll()
 			for _, c := range old.conns {
 				c.c.Close()
 			}
@@ -467,7 +490,8 @@ func init() {
 		if v, ok := m["maxpid"]; ok {
 			s.VerifSetMaximumPacketID(uint32(atoi(v)))
 		}
-		b := &bkState{s: s, conns: map[int]*bkConn{}, aclDeny: map[string]bool{}, pubHook: map[string]string{}, auth: "allow", t0: time.Now().Unix(), takeovers: map[string]chan struct{}{}}
+		b := &bkState{s: s, conns: map[int]*bkConn{}, aclDeny: map[string]bool{}, pubHook: map[string]string{}, auth: "allow", t0: time.Now().Unix(), takeovers: map[string]chan struct{}{},
+			holds: map[*mqtt.Client]chan struct{}{}, parked: make(chan *mqtt.Client, 16)}
 		mqtt.VerifYield = b.yield
 		if v, ok := m["auth"]; ok {
 			b.auth = v
@@ -664,6 +688,53 @@ func init() {
 		case <-c.done:
 		case <-time.After(3 * time.Second):
 			return "timeout-handler"
+		}
+		if !b.settle() {
+			return "timeout-settle"
+		}
+		return b.collect(-1)
+	}
+	runners["bk.drophold"] = func(st *state, a []string) string { // connection lost; handler parked before its clean-up
+		b := bkOf(st)
+		c := b.conns[atoi(a[0])]
+		if c == nil || c.closed {
+			return "no-conn"
+		}
+		if c.cl != nil {
+			b.tkMu.Lock()
+			b.holds[c.cl] = make(chan struct{})
+			b.tkMu.Unlock()
+		}
+		c.closed = true
+		c.c.Close()
+		select {
+		case <-b.parked:
+		case <-c.done:
+		case <-time.After(3 * time.Second):
+			return "timeout-park"
+		}
+		if !b.settle() {
+			return "timeout-settle"
+		}
+		return b.collect(-1)
+	}
+	runners["bk.release"] = func(st *state, a []string) string {
+		b := bkOf(st)
+		c := b.conns[atoi(a[0])]
+		if c == nil {
+			return "no-conn"
+		}
+		b.tkMu.Lock()
+		ch := b.holds[c.cl]
+		delete(b.holds, c.cl)
+		b.tkMu.Unlock()
+		if ch != nil {
+			close(ch)
+			select {
+			case <-c.done:
+			case <-time.After(3 * time.Second):
+				return "timeout-handler"
+			}
 		}
 		if !b.settle() {
 			return "timeout-settle"
